@@ -131,6 +131,11 @@ def corruptions(case, rng):
         s2 = [list(s) for s in shapes]
         s2[k][j] += 1
         out.append(("dim_changed", base[0], s2, dict(sizes)))
+        if len(shapes) >= 2 or sizes:
+            # an empty dimension where the other tensors / the size keywords say otherwise
+            s3 = [list(s) for s in shapes]
+            s3[k][j] = 0
+            out.append(("dim_zero", base[0], s3, dict(sizes)))
     s2 = [list(s) for s in shapes]
     s2[k] = s2[k] + [2]
     out.append(("dim_added", base[0], s2, dict(sizes)))
